@@ -631,6 +631,7 @@ func (x *rctx) message(it item) []byte {
 // observe tracks what a well-aligned message does to the victim's version (run mode; the
 // abstract mode does the same on the re-framed stream, see tokenOf).
 func (x *rctx) observe(m []byte) {
+	defer func() { recover() }() // a panicking parser is the victim's to show, not the script's
 	if x.abstract || len(m) < 4 || int(m[1])<<16|int(m[2])<<8|int(m[3]) != len(m)-4 {
 		return
 	}
@@ -844,8 +845,15 @@ func (x *rctx) dynClass(body []byte) string {
 }
 
 // tokenOf: the abstract token of one complete handshake message as readHandshake frames it.
-func (x *rctx) tokenOf(m []byte) string {
+func (x *rctx) tokenOf(m []byte) (tok string) {
 	typ := m[0]
+	// a parser that panics on these bytes has not accepted them: the case is kept (the victim
+	// will show the panic), the generator goes on
+	defer func() {
+		if r := recover(); r != nil {
+			tok = fmt.Sprintf("MAL,%d", typ)
+		}
+	}()
 	known, ok := gmtls.VerifUnmarshal(typ, x.gm, x.negVers, m)
 	if !known {
 		return "UNK"
